@@ -259,7 +259,10 @@ def impl_main(payload):
 
     pts = np.array([[0.5, 1.5], [2.0, 0.75], [1.25, 0.25], [3.0, 2.0]])
     scripted = [-(sp.Integer(2) ** X0), -(sp.Float(2.5) ** X0), X0 - 2 ** X1, -X0 ** 2, sp.Rational(-1, 2) ** X0, X1 * -(3 ** X0),
-                sp.exp(-2 ** X0), sp.Integer(-2) ** X0, 2 ** (-(2 ** X0)), X0 ** -2.5, -(sp.Float(1e-5) ** X1)]
+                sp.exp(-2 ** X0), sp.Integer(-2) ** X0, 2 ** (-(2 ** X0)), X0 ** -2.5, -(sp.Float(1e-5) ** X1),
+                # scientific-notation literals (a minus inside the literal) as power bases, factors, addends and exponents
+                sp.Float(2e-5) ** X0, sp.Float(3.5e-7) ** (X0 + X1) * X1, X0 - sp.Float(1e-5) ** X1, sp.Float(2e20) ** X0,
+                X0 * sp.Float(1e-7) + X1, X0 ** sp.Float(1e-5), sp.sin(sp.Float(4e-6) ** X1) / X0, X1 / sp.Float(2e-5) ** X0]
     for t in range(payload["sympy_cases"] + len(scripted)):
         signal.alarm(2)
         try:
